@@ -15,6 +15,21 @@ def known_match(prop, why, lines, signatures):
     return None
 
 
+def tagged(prop, verdict):
+    """Verdict strings of multi-property monitors look like `[C03] why ;; [C14] why`; keep this property's part."""
+    status, why = verdict
+    if status == "ok" or "[" not in why:
+        return verdict
+    parts = [p.strip() for p in why.split(";;")]
+    mine = [p[len(prop) + 2:].strip() for p in parts if p.startswith(f"[{prop}]")]
+    garbled = [p for p in parts if p.startswith("[PARSE]")]
+    if mine:
+        return (status, mine[0])
+    if garbled:
+        return (status, garbled[0])
+    return ("ok", "")
+
+
 def run_trace_property(prop, families, tier, seed, replay=None, assumptions=None, partial=None,
                        signatures=None, extra_obligation_check=None, samples_max=3):
     t0 = time.time()
@@ -83,7 +98,7 @@ def run_trace_property(prop, families, tier, seed, replay=None, assumptions=None
                         fstat["nontrivial"] += 1
                 if len(stats["samples"]) < samples_max and fam.nontrivial(header, lines):
                     stats["samples"].append({"script": header, "lines": lines[:60]})
-                verdict = r["verdicts"].get(sid, ("missing", ""))
+                verdict = tagged(prop, r["verdicts"].get(sid, ("missing", "")))
                 mh, ml = model_by_id.get(sid, (None, []))
                 div = trace.first_divergence(fam, lines, ml)
                 if div is None and verdict[0] == "ok":
@@ -103,7 +118,7 @@ def run_trace_property(prop, families, tier, seed, replay=None, assumptions=None
                             rr = trace.replay_ops(prop, fam.name, header, cand)
                             if "error" in rr or not rr["impl"]:
                                 return False
-                            v = rr["verdicts"].get(trace.script_id(rr["impl"][0][0]), ("ok", ""))
+                            v = tagged(prop, rr["verdicts"].get(trace.script_id(rr["impl"][0][0]), ("ok", "")))
                             if v[0] == "ok":
                                 return False
                             return known_match(prop, v[1], rr["impl"][0][1], signatures) is None
@@ -111,7 +126,7 @@ def run_trace_property(prop, families, tier, seed, replay=None, assumptions=None
                         rr = trace.replay_ops(prop, fam.name, header, small)
                         rp = core.replay_path(prop, seed, nviol)
                         body = [header] + (rr["impl"][0][1] if "impl" in rr and rr["impl"] else lines)
-                        v2 = rr["verdicts"].get(trace.script_id(rr["impl"][0][0]), verdict) if "impl" in rr and rr["impl"] else verdict
+                        v2 = tagged(prop, rr["verdicts"].get(trace.script_id(rr["impl"][0][0]), verdict)) if "impl" in rr and rr["impl"] else verdict
                         mdl = rr["model"][0][1] if "model" in rr and rr["model"] else []
                         rp.write_text("\n".join(body) + "\n# monitor on implementation trace: FAIL " + v2[1] +
                                       "\n# model observations for the same ops:\n" +
@@ -135,7 +150,7 @@ def run_trace_property(prop, families, tier, seed, replay=None, assumptions=None
             if "error" in r:
                 continue
             for header, lines in r["impl"]:
-                v = r["verdicts"].get(trace.script_id(header), ("ok", ""))
+                v = tagged(prop, r["verdicts"].get(trace.script_id(header), ("ok", "")))
                 if v[0] != "ok" and known_match(prop, v[1], lines, signatures) is None:
                     rp = core.replay_path(prop, seed, "s")
                     rp.write_text("\n".join([header] + lines) + "\n# monitor on implementation trace: FAIL " + v[1] +
